@@ -49,6 +49,10 @@ CLAIMED = {
    technique="deterministic port-fault simulation: real SerialSignBus over a simulated serial device, failure injected at each port operation, oracle over the port's operation log",
    text="Every message kind x reply-line kind (known, unknown, malformed, bad checksum, wrong length, timeout, EOF) runs on a real SerialSignBus over the simulated port with fragmented reads, EINTR and short writes, then with a hard failure at every port operation index in turn. Judged on the port log: exactly the frame encoding + CRLF written once, a read iff hello/query/request, exactly one line consumed (a sentinel line stays), result = decoding of that line, failures never turned into Ok. Placements exhaustive per case; cases sampled.",
    note=TRUSTED),
+ "C17": dict(cat="exploration", design="5/C17",
+   technique="deterministic two-node simulation over a simulated serial line: real controller and real ODK bridge on threads under a seeded scheduler with simulated clock; twin execution directly on the bus as oracle; per-line oracle at the bridge",
+   text="The complete serial path (real Sign, SerialSignBus, Frame codec, simulated full-duplex line with fragmentation / EINTR / short writes / pipelining / line time, real Odk, real VirtualSignBus) runs as two nodes whose every port operation is a scheduling point decided by the tape; port timeouts and the 30/100 ms pacing run on the simulated clock. A twin performs the same operation sequence directly on an identical bus; after each operation success must match success (and flip style) and every sign's state, type and pages must be equal. A second scenario feeds valid, unknown and undecodable lines into the bridge and checks forwarding, write-back and error reporting line by line. Exploration: workloads and schedules are sampled.",
+   note=TRUSTED + " Error variants are not compared across paths (silence = Ok(None) directly, read timeout over serial)."),
  "C18": dict(cat="exploration", design="5/C18",
    technique="deterministic simulation with a simulated clock behind the sleep seam; intervals measured at the simulated port's write/read boundaries (simulated + real monotonic time)",
    text="Sequences of messages with scripted replies run on a real SerialSignBus whose pacing sleeps advance a simulated clock; every interval is simulated time plus real elapsed time, so a tree that bypasses the seam is still measured. Asserted: >= 30 ms from the end of a data chunk's write to the next write and to the return; >= 100 ms from receiving an in-progress report to the return; every other exchange < 30 ms (minimum over repeated trials).",
